@@ -21,18 +21,65 @@ def _simplify(clauses, lit):
 
 
 def _propagate(clauses, assign):
-    while True:
-        unit = None
-        for c in clauses:
-            if len(c) == 1:
-                unit = c[0]
-                break
-        if unit is None:
-            return clauses
-        assign[abs(unit)] = unit > 0
-        clauses = _simplify(clauses, unit)
-        if clauses is None:
+    """Unit propagation to fixpoint (occurrence lists, linear in the formula size).  `clauses` are already simplified
+    w.r.t. `assign`; newly implied literals are recorded in `assign`.  Returns the simplified clause list or None."""
+    units = [c[0] for c in clauses if len(c) == 1]
+    if not units:
+        return clauses
+    occ = {}
+    for i, c in enumerate(clauses):
+        for l in c:
+            occ.setdefault(l, []).append(i)
+    remaining = [len(c) for c in clauses]
+    satisfied = [False] * len(clauses)
+    val = {}
+    queue = list(units)
+    while queue:
+        u = queue.pop()
+        v = abs(u)
+        if v in val:
+            if val[v] != (u > 0):
+                return None
+            continue
+        val[v] = u > 0
+        assign[v] = u > 0
+        for i in occ.get(u, ()):
+            satisfied[i] = True
+        for i in occ.get(-u, ()):
+            if satisfied[i]:
+                continue
+            remaining[i] -= 1
+            if remaining[i] == 0:
+                return None
+            if remaining[i] == 1:
+                for l in clauses[i]:
+                    lv = abs(l)
+                    if lv not in val:
+                        queue.append(l)
+                        break
+                    if val[lv] == (l > 0):
+                        satisfied[i] = True
+                        break
+    out = []
+    for i, c in enumerate(clauses):
+        if satisfied[i]:
+            continue
+        c2 = []
+        sat = False
+        for l in c:
+            lv = abs(l)
+            if lv in val:
+                if val[lv] == (l > 0):
+                    sat = True
+                    break
+            else:
+                c2.append(l)
+        if sat:
+            continue
+        if not c2:
             return None
+        out.append(c2)
+    return out
 
 
 def solve(clauses, assumptions=()):
